@@ -127,7 +127,7 @@ PROPERTY = {
                     'graph on every input, exactly the arg-max branch and the fixed layers remain, the combiner is gone, outside layers untouched.  This is a '
                     'bounded stand-in in the topology dimension, never counted as a proof over all SuperNets.',
         not_decided=['all networks with 1..3 blocks of 2..12 branches: topologies are enumerated, not quantified',
-                     'user-defined multi-layer blocks whose traced form ends in a functional op (observed natively to make export raise - see DESIGN.md 6.1)',
+                     'user-defined multi-layer blocks: two kinds only (ending in F.relu, ending in a residual add) - the defect they exposed is fixed (/repo 3b40840)',
                      'in the graph-level harness (export-graph) how a SuperNetModule appears in the traced graph is an assumption; the whole-model harness (contracts/whole_supernet.py) traces real '
                      'SuperNetModule networks through the tracer contract of pyvc/fxtrace.py'],
         trusted=['torch.fx graph mutators as specified in pyvc/torchlib.py (FxGraph / FxNode / FxGraphModule) and symbolic tracing / GraphModule / ShapeProp as specified in pyvc/fxtrace.py, '
